@@ -38,7 +38,7 @@ def theorems_of(prop):
             if m and ns and ns[-1].split('.')[-1] == m.group(1).split('.')[-1]:
                 ns.pop()
                 continue
-            m = re.match(r'^(?:private\s+|protected\s+)?theorem\s+([^\s:({\[]+)', line)
+            m = re.match(r'^(?:protected\s+)?theorem\s+([^\s:({\[]+)', line)
             if m:
                 names.append('.'.join(ns + [m.group(1)]))
     return names
